@@ -176,12 +176,18 @@ def main(tier: str) -> int:
     from fractions import Fraction as _Fr
     kcases = []
     for _ in range(40 if tier == "quick" else 300):
-        kname = rng.choice(["OneMax", "Sphere", "Schwefel12", "Rosenbrock", "Rastrigin", "Griewank"])
-        nr, nc = rng.randint(0, 3), rng.randint(1, 5)
+        kname = rng.choice(["OneMax", "Sphere", "Schwefel12", "Rosenbrock", "Rastrigin", "Griewank", "Elliptic"])
+        nr, nc = rng.randint(0, 3), rng.randint(2 if kname == "Elliptic" else 1, 5)      # D = 1: the real condition exponent is 0/0
         den = 1 if kname == "Rastrigin" else rng.choice([1, 2, 4])        # integers for Rastrigin: cos(2 pi k) = 1
         Xk = np.array([[rng.randint(-6, 6) / den for _ in range(nc)] for _ in range(nr)], dtype=np.float64).reshape(nr, nc)
         kcases.append((kname, Xk))
-    cls_of = {"OneMax": OP.OneMax, "Sphere": OP.Sphere, "Schwefel12": OP.Schwefe1_2, "Rosenbrock": OP.Rosenbrock, "Rastrigin": OP.Rastrigin, "Griewank": OP.Griewank}
+    cls_of = {"OneMax": OP.OneMax, "Sphere": OP.Sphere, "Schwefel12": OP.Schwefe1_2, "Rosenbrock": OP.Rosenbrock, "Rastrigin": OP.Rastrigin, "Griewank": OP.Griewank, "Elliptic": OP.HighConditionedElliptic}
+
+    def _cw_table(D):
+        # the condition weights 1e6 ** (j / (D - 1)) of HighConditionedElliptic as numpy computes them, read as exact rationals
+        w = 1e6 ** ((np.arange(1, D + 1) - 1) / (D - 1))
+        tbl = ", ".join("(%d, %s)" % (j, _q(w[j])) for j in range(D))
+        return "(fun D j => if D == %d then ((([%s] : List (Nat × Rat)).find? (fun t => t.1 == j)).map (·.2)).getD 0 else 0) " % (D, tbl)
 
     def _q(v):
         f = _Fr(float(v))
@@ -194,11 +200,11 @@ def main(tier: str) -> int:
         tbl = ", ".join("(%d, %s, %s)" % (i, _q(v), _q(np.cos(np.float64(v) / np.sqrt(np.float64(i + 1))))) for i, v in ent)
         return "(fun i a => ((([%s] : List (Nat × Rat × Rat)).find? (fun t => t.1 == i && t.2.1 == a)).map (·.2.2)).getD 0) " % tbl
     klines = ["import TFV.Generated.Src.Bench_OneMax_f", "import TFV.Generated.Src.Bench_Sphere_f", "import TFV.Generated.Src.Bench_Schwefel12_f",
-              "import TFV.Generated.Src.Bench_Rosenbrock_f", "import TFV.Generated.Src.Bench_Rastrigin_f", "import TFV.Generated.Src.Bench_Griewank_f", "open TFV TFV.Generated.Src",
+              "import TFV.Generated.Src.Bench_Rosenbrock_f", "import TFV.Generated.Src.Bench_Rastrigin_f", "import TFV.Generated.Src.Bench_Griewank_f", "import TFV.Generated.Src.Bench_Elliptic_f", "open TFV TFV.Generated.Src",
               "def showQ : Option (List Rat) → String | none => \"none\" | some v => toString (v.map fun q => (q.num, q.den))"]
     for kname, Xk in kcases:
         mtx = "{ ncols := %d, rows := [%s] }" % (Xk.shape[1], ", ".join("[" + ", ".join("(%d : Rat) / %d" % (_Fr(float(v)).numerator, _Fr(float(v)).denominator) for v in row) + "]" for row in Xk))
-        klines.append("#eval IO.println (showQ (Bench_%s_f %s%s))" % (kname, "(fun _ => 1) " if kname == "Rastrigin" else _csi_table(Xk) if kname == "Griewank" else "", mtx))
+        klines.append("#eval IO.println (showQ (Bench_%s_f %s%s))" % (kname, "(fun _ => 1) " if kname == "Rastrigin" else _csi_table(Xk) if kname == "Griewank" else _cw_table(Xk.shape[1]) if kname == "Elliptic" else "", mtx))
     kaudit = C.LEAN / "TFV" / "Audit" / "C20_np.lean"
     kaudit.parent.mkdir(parents=True, exist_ok=True)
     kaudit.write_text("\n".join(klines) + "\n")
